@@ -269,6 +269,16 @@ def compare_fmt_sites(cases, res):
                                       'real': repr(real)[:700]})
 
 
+def _has_raw(x):
+    if isinstance(x, dict):
+        if x.get('t') == 'el' and x.get('name') in G.RAW:
+            return True
+        return any(_has_raw(v) for v in x.values())
+    if isinstance(x, list):
+        return any(_has_raw(v) for v in x)
+    return False
+
+
 def compare(cases, outs, res, reparse, streams=(0, 1, 2, 3)):
     lines, idx = [], []
     revs = {}
@@ -281,10 +291,20 @@ def compare(cases, outs, res, reparse, streams=(0, 1, 2, 3)):
             res.count('model:no-counterpart')
             continue
         ls[2] = proto.line(A('C01'), A('read'), A(c['method']), outs[i])
+        etago = G.raw_etago(c)
+        if etago:
+            # raw text holding `</`: where it ends is read differently by an HTML 4 reader (the Lean one: at `</`) and by
+            # html.parser (at `</script`); the case is outside the property
+            res.count('reader:skipped:etago-in-raw-text')
         for j, l in enumerate(ls):
-            if j in streams:
+            if j in streams and not (j == 2 and etago):
                 lines.append(l)
                 idx.append((i, j))
+        has_raw = c['mode'] == 'template' and _has_raw(c['tmpl'])
+        if has_raw and not c['strip'] and 3 in streams:
+            # stream lean-rawspec-vs-generator-spec: `structure_preserved_rawtext_partial`'s specification
+            lines.append(proto.line(A('C01'), A('expectr'), A(c['method']), Wire(c).forest()))
+            idx.append((i, 5))
         if 1 in streams:
             # stream serializer-cache-flag: the REAL event stream of the template through the three Lean
             # serializers (loop with cache + flag, loop without cache, escaping by enclosing elements)
@@ -295,12 +315,45 @@ def compare(cases, outs, res, reparse, streams=(0, 1, 2, 3)):
             if isinstance(revs[i], list) and all(e[0] != 'OTHER' for e in revs[i]):
                 lines.append(proto.line(A('C01'), A('emit3'), A(c['method']), B(c['strip']), revs[i]))
                 idx.append((i, 4))
+                if has_raw and not c['strip'] and c['method'] == 'html' and not etago:
+                    # stream rawtext-reread-real-events: `reread_rawtext_nostrip` instantiated on the REAL event stream
+                    lines.append(proto.line(A('C01'), A('rawreread'), A(c['method']), revs[i]))
+                    idx.append((i, 6))
     if 0 in streams:
         compare_fmt_sites([c for i, c in enumerate(cases) if outs[i] is not None], res)
     answers = proto.run_lines(lines)
     for (i, j), ans in zip(idx, answers):
         stream = ['render-text', 'template-events', 'reader-vs-independent-parser', 'lean-spec-vs-generator-spec',
-                  'serializer-cache-flag'][j]
+                  'serializer-cache-flag', 'lean-rawspec-vs-generator-spec', 'rawtext-reread-real-events'][j]
+        if j == 5:
+            if ans == 'outside' or ans == 'unmodelled':
+                res.count('structure_preserved_rawtext:case-outside-hypotheses' + (':etago' if G.raw_etago(cases[i]) else ''))
+                continue
+            res.count('structure_preserved_rawtext:case-inside-hypotheses:' + cases[i]['method'])
+            exp = G.Spec(cases[i]).expected()
+            if any(t[0] == 'ALT' for t in exp):
+                res.count('structure_preserved_rawtext:inside-but-generator-spec-has-alternatives')
+                continue
+            model = reader_tokens(proto.dec(ans))
+            real = G.coalesce(exp)
+            res.streams[stream] = res.streams.get(stream, 0) + 1
+            if model != real:
+                res.disagreements.append({'stream': stream, 'case': cases[i], 'model': repr(model)[:600], 'real': repr(real)[:600]})
+            continue
+        if j == 6:
+            if ans == 'outside':
+                res.count('reread_rawtext:real-stream-outside-hypotheses')
+                continue
+            res.count('reread_rawtext:real-stream-inside-hypotheses')
+            dec = proto.dec(ans)
+            model = reader_tokens(dec[0])
+            real = G.coalesce(reparse(outs[i], cases[i]['method']))
+            res.streams[stream] = res.streams.get(stream, 0) + 1
+            for seg in dec[1]:
+                res.count('reread_rawtext:raw-segment:' + ('empty' if not seg else 'hostile' if any(ch in seg for ch in '<&') else 'benign'))
+            if model != real:
+                res.disagreements.append({'stream': stream, 'case': cases[i], 'model': repr(model)[:600], 'real': repr(real)[:600]})
+            continue
         if j == 4:
             model = proto.dec(ans)
             res.streams[stream] = res.streams.get(stream, 0) + 1
